@@ -280,7 +280,10 @@ def matrix_scripts():
 
 MATRIX_TARGETS = ["smallint", "int", "bigint", "double", "decimal(10,2)", "decimal", "boolean", "varchar", "date", "timestamp", "interval", "blob"]
 MATRIX_UNARY = ["- {x}", "not {x}", "{x} is null", "{x} is not null", "extract(year from {x})", "extract(day from {x})", "case when {x} is null then null else {x} end",
-                "{x} in ({x})", "coalesce({x}, {x})", "nullif({x}, {x})", "count({x})", "min({x})", "max({x})", "sum({x})", "avg({x})", "count(distinct {x})"]
+                "{x} in ({x})", "coalesce({x}, {x})", "nullif({x}, {x})", "count({x})", "min({x})", "max({x})", "sum({x})", "avg({x})", "count(distinct {x})",
+                "replace({x}, {x}, {x})", "replace('abc', 'b', {x})", "repeat({x}, 2)", "repeat('ab', {x})", "substring({x} from 1 for 2)", "substring('abc' from {x} for 1)",
+                "substring('abc' from 1 for {x})", "first({x})", "last({x})", "{x} between {x} and {x}", "{x} not between 1 and 2", "{x} is distinct from {x}",
+                "+ {x}", "extract(hour from {x})", "extract(month from {x})", "cast({x} as varchar) || 'z'", "{x} not like 'a%'", "not ({x} = {x})"]
 
 
 def unary_matrix():
@@ -531,6 +534,51 @@ def run(tier, seed):
                 chk.ok(core.case_id(c), outcome="cast-out-of-range-reported")
             else:
                 chk.fail(core.case_id(c), "out-of-range-cast-not-an-error", c, x, outcome="cast")
+    # ---- comparisons between numeric types of different widths, with values beyond the narrower type's range (the narrower
+    # operand must be widened, never the wider one narrowed): all pairs of boundary values of two columns, and column vs literal
+    MW = {"si": ("smallint", [0, 1, -1, 32767, -32768]),
+          "i": ("int", [0, 1, -1, 32767, 32768, -32769, 65537, -65535, 100000, 2147483647, -2147483648]),
+          "bi": ("bigint", [0, 1, -1, 65537, 2147483648, -2147483649, 4294967297, -4294967295, 9223372036854775807])}
+    pyop = {"=": lambda x, y: x == y, "<>": lambda x, y: x != y, "<": lambda x, y: x < y, "<=": lambda x, y: x <= y, ">": lambda x, y: x > y, ">=": lambda x, y: x >= y}
+    mw_scripts, mw_meta = [], []
+    for (ca, cb) in [("si", "i"), ("i", "si"), ("si", "bi"), ("bi", "si"), ("i", "bi"), ("bi", "i")]:
+        pairs_ = [(x, y) for x in MW[ca][1] for y in MW[cb][1]]
+        steps = [{"sql": f"create table mw(id int, x {MW[ca][0]}, y {MW[cb][0]})"}]
+        for k in range(0, len(pairs_), 25):
+            steps.append({"sql": "insert into mw values " + ", ".join(f"({k + j}, {x}, {y})" for j, (x, y) in enumerate(pairs_[k:k + 25]))})
+        n0 = len(steps)
+        qs_ = []
+        for op in pyop:
+            qs_.append((f"select id, x {op} y from mw", "proj", op, None))
+            qs_.append((f"select id from mw where x {op} y", "filter", op, None))
+            for lit_ in (MW[cb][1][-1], MW[cb][1][-2], MW[cb][1][4] if len(MW[cb][1]) > 4 else 1):
+                qs_.append((f"select id from mw where x {op} {lit_}", "filter-lit", op, lit_))
+        steps += [{"sql": q_[0]} for q_ in qs_]
+        mw_scripts.append({"id": 0, "engine": "mem", "steps": steps})
+        mw_meta.append((ca, cb, pairs_, n0, qs_))
+    for (ca, cb, pairs_, n0, qs_), r in zip(mw_meta, runner.run_many("sql", mw_scripts, timeout=300)):
+        rs = r.get("results", [])
+        if r.get("abort") or any(U.status(x) != "rows" for x in rs[:n0]):
+            chk.machinery(f"mixed-width setup failed for {ca},{cb}: {json.dumps(rs[:n0])[:300]}")
+            continue
+        for (sql, kind, op, lit_), x in zip(qs_, rs[n0:]):
+            c = {"mixed_width": sql, "x": MW[ca][0], "y": MW[cb][0]}
+            cid = core.case_id(c)
+            if not U.is_rows(x):
+                chk.fail(cid, f"evaluation-fails@mixed-width:{MW[ca][0]},{MW[cb][0]}", c, x, outcome="fails")
+                continue
+            got = U.decode(x)
+            if kind == "proj":
+                want = [(k, pyop[op](a_, b_)) for k, (a_, b_) in enumerate(pairs_)]
+                ok_ = sorted(got) == sorted(want)
+            elif kind == "filter":
+                ok_ = sorted(g[0] for g in got) == [k for k, (a_, b_) in enumerate(pairs_) if pyop[op](a_, b_)]
+            else:
+                ok_ = sorted(g[0] for g in got) == [k for k, (a_, b_) in enumerate(pairs_) if pyop[op](a_, lit_)]
+            if ok_:
+                chk.ok(cid, outcome="ok:mixed-width", sample={"case": c})
+            else:
+                chk.fail(cid, f"wrong-value@mixed-width:{MW[ca][0]},{MW[cb][0]}", c, {"got": got[:8]}, outcome="wrong")
     # ---- operand type matrix: every binary operator x every ordered pair of operand types (a column of each type, and
     # literals). Whatever the type checker accepts must have a kernel: the statement returns rows or a *data* error
     # (overflow, out of range, unparsable text), never "no function .." and never a panic; and the mirrored comparison
